@@ -634,6 +634,9 @@ func (m *vc06Model) check(in vc06Interp, ref vc06Ref, data []byte, payload []byt
 	}
 	if hasPayload {
 		if sha256.Sum256(payload) != ph || !ok {
+			if _, stored := m.payloads[ph]; stored && ok {
+				return "payload-hash-mismatch-declared-hash-already-stored", nil, nil
+			}
 			return "payload-hash-mismatch", nil, nil
 		}
 	}
@@ -688,6 +691,28 @@ func (m *vc06Model) offer(b []byte, payload []byte, hasPayload bool, apply bool)
 	return vc06Verdict{Clause: first}
 }
 
+// vc06PayloadDigest names the payload bytes a subscriber is handed ("-" = none).
+func vc06PayloadDigest(p []byte) string {
+	if len(p) == 0 {
+		return "-"
+	}
+	d := sha256.Sum256(p)
+	return hex.EncodeToString(d[:6])
+}
+
+// writePayload mirrors State.WritePayload (a private payload received after its transaction): the payload is stored
+// and the payload subscribers are told.
+func (m *vc06Model) writePayload(ref vc06Ref, h vc06Ref, data []byte) {
+	m.payloads[h] = data
+	for _, s := range m.subs {
+		for _, ty := range s.types {
+			if ty == "payload" {
+				m.notified = append(m.notified, s.name+"|"+hex.EncodeToString(ref[:])+"|"+ty+"|"+vc06PayloadDigest(data))
+			}
+		}
+	}
+}
+
 func (m *vc06Model) admit(tx *vc06MTx, payload []byte, hasPayload bool) {
 	m.txs[tx.ref] = tx
 	if _, ok := m.contents[tx.content]; !ok {
@@ -701,7 +726,7 @@ func (m *vc06Model) admit(tx *vc06MTx, payload []byte, hasPayload bool) {
 			if ty == "payload" && !hasPayload {
 				continue
 			}
-			m.notified = append(m.notified, s.name+"|"+hex.EncodeToString(tx.ref[:])+"|"+ty)
+			m.notified = append(m.notified, s.name+"|"+hex.EncodeToString(tx.ref[:])+"|"+ty+"|"+vc06PayloadDigest(payload))
 		}
 	}
 }
